@@ -197,6 +197,118 @@ Fixpoint transparent_from (s : sstate) (ops : list sop) (a b : list sout) : bool
 Definition satisfies_seq (t : strace) : bool :=
   transparent_from ([], 0) (st_ops t) (st_cached t) (st_plain t).
 
+(* ================= Part 1b: failed writes, more than one handle ================= *)
+
+(* A write whose storage call returns an error may have been applied nevertheless: not at all
+   (FErrBefore), completely (FErrAfter: a timeout after the effect), or - a batch - in its first k items
+   (FPartial k: unlogged batches, chunked batch writes). *)
+Inductive fault := FNone | FErrBefore | FErrAfter | FPartial (k : nat).
+
+Definition is_write (o : sop) : bool :=
+  match o with OPut _ _ _ | OPutBatch _ | OIns _ _ _ _ | OCas _ _ _ _ _ | OCad _ _ _ => true | _ => false end.
+Definition write_keys (o : sop) : list (bytes * bytes) :=
+  match o with
+  | OPut pk cc _ | OIns pk cc _ _ | OCas pk cc _ _ _ | OCad pk cc _ => [(pk, cc)]
+  | OPutBatch items => map fst items
+  | _ => []
+  end.
+(* faults are injected into writes only *)
+Definition faulty (f : fault) (o : sop) : bool := match f with FNone => false | _ => is_write o end.
+
+Section SeqX.
+Context {U : Type} (ustep : U -> sop -> U * sout).
+
+(* what the storage holds after a write that reported an error *)
+Definition failed_under (u : U) (f : fault) (o : sop) : U :=
+  match f with
+  | FNone | FErrBefore => u
+  | FErrAfter => fst (ustep u o)
+  | FPartial k => match o with OPutBatch items => fst (ustep u (OPutBatch (firstn k items))) | _ => u end
+  end.
+
+(* the uncached storage under a fault plan *)
+Definition under_fstep (u : U) (fo : fault * sop) : U * sout :=
+  if faulty (fst fo) (snd fo) then (failed_under u (fst fo) (snd fo), RErr) else ustep u (snd fo).
+
+Fixpoint under_frun (u : U) (fops : list (fault * sop)) : list sout :=
+  match fops with
+  | [] => []
+  | fo :: r => let '(u', out) := under_fstep u fo in out :: under_frun u' r
+  end.
+
+(* markUnknown: what the storage holds under the key is not known; the row is marked like a row too big
+   for the cache (reads go to the storage, fills find an entry) *)
+Definition mark_unknown (kg : bool) (c : cache) (k : bytes * bytes) : cache :=
+  if key_skipped kg (fst k) (snd k) then c else fc_set c (fst k) (snd k) CBig.
+
+(* [em] = true: a write that failed marks its keys (the code since the repair of C07-WRITEERR); false: it
+   leaves the cache as it was (the code before) *)
+Definition cache_fstep (bm kg em : bool) (s : cst (U:=U)) (fo : fault * sop) : cst (U:=U) * sout :=
+  if faulty (fst fo) (snd fo)
+  then (mkC (failed_under (c_under s) (fst fo) (snd fo))
+            (if em then fold_left (mark_unknown kg) (write_keys (snd fo)) (c_cache s) else c_cache s)
+            (c_now s), RErr)
+  else cache_step_gen ustep bm kg s (snd fo).
+
+(* Two handles obtained from one caching provider for one app.  [memo] = true: the provider hands out one
+   caching storage per app, both handles are the same cache (the code since the repair of C07-HANDLES);
+   false: every AppStorage call builds a new cache over the same storage (the code before). *)
+Record xst := mkX { x_under : U; x_c0 : cache; x_c1 : cache; x_now : Z }.
+
+Definition xstep (memo bm kg em : bool) (s : xst) (x : bool * fault * sop) : xst * sout :=
+  let second := fst (fst x) && negb memo in
+  let c := if second then x_c1 s else x_c0 s in
+  let '(s', out) := cache_fstep bm kg em (mkC (x_under s) c (x_now s)) (snd (fst x), snd x) in
+  (if second then mkX (c_under s') (x_c0 s) (c_cache s') (c_now s')
+   else mkX (c_under s') (c_cache s') (x_c1 s) (c_now s'), out).
+
+Fixpoint xrun (memo bm kg em : bool) (s : xst) (xs : list (bool * fault * sop)) : list sout :=
+  match xs with
+  | [] => []
+  | x :: r => let '(s', out) := xstep memo bm kg em s x in out :: xrun memo bm kg em s' r
+  end.
+
+End SeqX.
+
+Arguments mkX {U}.
+Arguments x_under {U}.
+Arguments x_c0 {U}.
+Arguments x_c1 {U}.
+Arguments x_now {U}.
+
+Definition xfop (x : bool * fault * sop) : fault * sop := (snd (fst x), snd x).
+
+(* ---- trace checking: handles and fault plans ---- *)
+Record xtrace := mkXTrace { xt_backend : backend; xt_ops : list (bool * fault * sop);
+                            xt_cached : list sout; xt_plain : list sout }.
+
+Definition agrees_x (t : xtrace) : bool :=
+  list_eqb sout_eqb
+    (match xt_backend t with
+     | Mem => xrun spec_step cache_provider_one_per_app cache_big_values_marked cache_key_guard cache_write_error_marks
+                   (mkX ([], 0) [] [] 0) (xt_ops t)
+     | Bbolt => xrun bb_step cache_provider_one_per_app cache_big_values_marked cache_key_guard cache_write_error_marks
+                     (mkX bb_init [] [] 0) (xt_ops t)
+     end) (xt_cached t)
+  && list_eqb sout_eqb
+    (match xt_backend t with
+     | Mem => under_frun spec_step ([], 0) (map xfop (xt_ops t))
+     | Bbolt => under_frun bb_step bb_init (map xfop (xt_ops t))
+     end) (xt_plain t).
+
+(* the property: whatever handle an operation goes through and whatever the storage did with the writes it
+   failed, the cached outputs are the uncached ones (the reference state follows the same fault plan) *)
+Fixpoint transparent_xfrom (s : sstate) (xs : list (bool * fault * sop)) (a b : list sout) : bool :=
+  match xs, a, b with
+  | [], [], [] => true
+  | x :: rx, o1 :: ra, o2 :: rb =>
+      (dont_care s (snd x) || sout_eqb o1 o2) && transparent_xfrom (fst (under_fstep spec_step s (xfop x))) rx ra rb
+  | _, _, _ => false
+  end.
+
+Definition satisfies_x (t : xtrace) : bool :=
+  transparent_xfrom ([], 0) (xt_ops t) (xt_cached t) (xt_plain t).
+
 (* ================= Part 2: schedules ================= *)
 
 (* One key.  The writer runs a program of writes that all succeed: the i-th write leaves content
@@ -383,6 +495,8 @@ Definition satisfies_sched (t : ctrace) : bool :=
   no_stale [ct_init t] (ct_prog t) false [] (ct_sched t) (ct_obs t).
 
 (* ================= one trace type for the driver ================= *)
-Inductive trace := TSeq (t : strace) | TSched (t : ctrace).
-Definition agrees (t : trace) : bool := match t with TSeq s => agrees_seq s | TSched c => agrees_sched c end.
-Definition satisfies (t : trace) : bool := match t with TSeq s => satisfies_seq s | TSched c => satisfies_sched c end.
+Inductive trace := TSeq (t : strace) | TSched (t : ctrace) | TSeqX (t : xtrace).
+Definition agrees (t : trace) : bool :=
+  match t with TSeq s => agrees_seq s | TSched c => agrees_sched c | TSeqX x => agrees_x x end.
+Definition satisfies (t : trace) : bool :=
+  match t with TSeq s => satisfies_seq s | TSched c => satisfies_sched c | TSeqX x => satisfies_x x end.
